@@ -198,20 +198,6 @@ MemoViolations(confl, en) ==
 ----------------------------------------------------------------------------
 \* Build events
 
-\* boundary condition of lane j (1-based, row-major over the trailing axes) in SplineRef form
-SideOf(el, k, v) ==
-    CASE k = "NotAKnot" -> [k |-> "NotAKnot", v |-> Q0]
-      [] k = "Natural" -> [k |-> "SecondDeriv", v |-> Q0]
-      [] k = "Clamped" -> [k |-> "FirstDeriv", v |-> Q0]
-      [] k = "FirstDeriv" -> [k |-> "FirstDeriv", v |-> QDecode(el, v)]
-      [] k = "SecondDeriv" -> [k |-> "SecondDeriv", v |-> QDecode(el, v)]
-
-LaneBc(st, el, j) ==
-    IF st.bc = "Periodic" THEN [per |-> TRUE, l |-> SideOf(el, "NotAKnot", ""), r |-> SideOf(el, "NotAKnot", "")]
-    ELSE IF st.bc = "Individual" THEN
-        LET row == st.rows[j] IN [per |-> FALSE, l |-> SideOf(el, row[2], row[3]), r |-> SideOf(el, row[4], row[5])]
-    ELSE [per |-> FALSE, l |-> SideOf(el, st.bc, ""), r |-> SideOf(el, st.bc, "")]
-
 \* coverage class of a lane's boundary selection
 BcClass(bc, n) ==
     "BC|" \o (IF bc.per THEN "Periodic" ELSE bc.l.k \o "-" \o bc.r.k) \o "|n" \o (IF n = 3 THEN "3" ELSE IF n = 4 THEN "4" ELSE "5+")
@@ -436,10 +422,20 @@ DoQ1(ev) ==
                    \o (IF judgeEl THEN [k \in 1..N |-> "EL|" \o sk \o "|" \o o.el \o "|" \o J[k].class] ELSE <<>>)
         vRel == IF judge /\ vShape = <<>> /\ ev.en = "array" THEN RelViolations(ev, o, res, FALSE) ELSE <<>>
         keepLast == judge /\ vShape = <<>> /\ ev.en = "array"
+        \* ---- system model: a script generated from NdInterp.tla carries the model's reply; the basis of this judge
+        \* (outcome class, exact reference values) must coincide with it - a difference is an inconsistency between
+        \* the two specifications (or the harness), reported as coverage class MODEL|differs and treated as a tool error
+        judgeOut == IF ~bufOk THEN "Panic" ELSE IF ranged /\ ~ex THEN (IF allIn THEN "Ok" ELSE "Err:OutOfBounds")
+                    ELSE IF ranged /\ ex /\ allFin THEN "Ok" ELSE "Unspecified"
+        modelCls == IF ~Has(ev, "exp") THEN <<>>
+                    ELSE IF ev.exp.out # judgeOut THEN <<"MODEL|differs|outcome">>
+                    ELSE IF judgeEl /\ ev.exp.out = "Ok" /\ (Len(ev.exp.vals) # N \/ \E k \in 1..N : Has(J[k], "ref") /\ J[k].ref # ev.exp.vals[k])
+                         THEN <<"MODEL|differs|value">>
+                    ELSE <<"MODEL|agree|" \o ev.exp.out \o "|" \o ev.out>>
     IN  [sigma EXCEPT !.bad = bad \o vOut \o vShape \o Cap(vEl) \o vMemo \o vBuf \o Cap(vCust) \o Cap(vCast) \o Cap(vRel),
                    !.memoP = memoP \cup pairs,
                    !.memoK = memoK \cup {<<p[1], p[2]>> : p \in pairs},
-                   !.cov = Bump(cov, classes \o (IF vRel # <<>> \/ (keepLast /\ Has(o, "rel")) THEN <<"RELQ|" \o sk>> ELSE <<>>)),
+                   !.cov = Bump(cov, classes \o modelCls \o (IF vRel # <<>> \/ (keepLast /\ Has(o, "rel")) THEN <<"RELQ|" \o sk>> ELSE <<>>)),
                    !.head = IF judgeEl THEN HeadUp(head, hk, hv) ELSE head,
                    !.objs = IF keepLast THEN [objs EXCEPT ![ev.id] = [last |-> [q |-> ev.q.v, r |-> res.v]] @@ o] ELSE objs]
 
@@ -598,10 +594,20 @@ DoQ2(ev) ==
                    \o (IF judgeEl THEN [k \in 1..N |-> "EL|" \o sk \o "|" \o o.el \o "|" \o J[k].class] ELSE <<>>)
         vRel == IF judge /\ vShape = <<>> /\ ev.en = "array" THEN RelViolations(ev, o, res, TRUE) ELSE <<>>
         keepLast == judge /\ vShape = <<>> /\ ev.en = "array"
+        \* ---- system model: a script generated from NdInterp.tla carries the model's reply; the basis of this judge
+        \* (outcome class, exact reference values) must coincide with it - a difference is an inconsistency between
+        \* the two specifications (or the harness), reported as coverage class MODEL|differs and treated as a tool error
+        judgeOut == IF ~sameShape THEN "Unspecified" ELSE IF ~bufOk THEN "Panic" ELSE IF ranged /\ ~ex THEN (IF allIn THEN "Ok" ELSE "Err:OutOfBounds")
+                    ELSE IF ranged /\ ex /\ allFin THEN "Ok" ELSE "Unspecified"
+        modelCls == IF ~Has(ev, "exp") THEN <<>>
+                    ELSE IF ev.exp.out # judgeOut THEN <<"MODEL|differs|outcome">>
+                    ELSE IF judgeEl /\ ev.exp.out = "Ok" /\ (Len(ev.exp.vals) # N \/ \E k \in 1..N : Has(J[k], "ref") /\ J[k].ref # ev.exp.vals[k])
+                         THEN <<"MODEL|differs|value">>
+                    ELSE <<"MODEL|agree|" \o ev.exp.out \o "|" \o ev.out>>
     IN  [sigma EXCEPT !.bad = bad \o vOut \o vShape \o Cap(vEl) \o vMemo \o vBuf \o Cap(vCust) \o Cap(vCast) \o Cap(vRel),
                    !.memoP = memoP \cup pairs,
                    !.memoK = memoK \cup {<<p[1], p[2]>> : p \in pairs},
-                   !.cov = Bump(cov, classes \o (IF vRel # <<>> \/ (keepLast /\ Has(o, "rel")) THEN <<"RELQ|" \o sk>> ELSE <<>>)),
+                   !.cov = Bump(cov, classes \o modelCls \o (IF vRel # <<>> \/ (keepLast /\ Has(o, "rel")) THEN <<"RELQ|" \o sk>> ELSE <<>>)),
                    !.head = IF judgeEl THEN HeadUp(head, hk, hv) ELSE head,
                    !.objs = IF keepLast THEN [objs EXCEPT ![ev.id] = [last |-> [q |-> ev.q.v, q2 |-> ev.q2.v, r |-> res.v]] @@ o] ELSE objs]
 
